@@ -58,6 +58,25 @@ Theorem C17_seeded_reproducible : forall e o r1 r2, step e o = r1 -> step e o = 
 Proof. intros e o r1 r2 H1 H2. rewrite <- H1. exact H2. Qed.
 Print Assumptions C17_seeded_reproducible.
 
+(* the built-in test functions: an array of tests evaluates each test on the same data and assignment
+   (make_test_array(func, indices)[i](data) = func(data, indices[i])), and raises exactly when one of them does *)
+From PV Require Import Proofs.TestFuncProofs.
+Theorem C17_test_array_is_pointwise : forall fs g resp vs, eval_tests fs g resp = Ok vs ->
+  length vs = length fs /\ forall i d, (i < length fs)%coq_nat -> eval_test (List.nth i fs d) g resp = Ok (List.nth i vs 0%Q).
+Proof. exact eval_tests_pointwise. Qed.
+Print Assumptions C17_test_array_is_pointwise.
+
+(* mean_diff is what it is named for: mean of the first group (sorted label order) minus mean of the second, on the
+   requested column; with any other number of groups mean_diff and ttest raise ValueError *)
+Theorem C17_mean_diff_is_difference_of_group_means : forall i g resp g0 g1, unique g = [:: g0; g1] ->
+  eval_test (MeanDiffF i) g resp = Ok (qmean (select (column resp i) g g0) - qmean (select (column resp i) g g1))%Q.
+Proof. exact mean_diff_value. Qed.
+Print Assumptions C17_mean_diff_is_difference_of_group_means.
+Theorem C17_two_sample_tests_need_two_groups : forall i g resp, length (unique g) <> 2%nat ->
+  eval_test (MeanDiffF i) g resp = Err ValueError /\ eval_test (TtestSqF i) g resp = Err ValueError.
+Proof. exact two_sample_tests_need_two_groups. Qed.
+Print Assumptions C17_two_sample_tests_need_two_groups.
+
 Example C17_nonvacuous :
   match run {| group := [:: 0; 1; 0; 1]%Z; response := [:: [:: 1%Q]; [:: 2%Q]; [:: 3%Q]; [:: 4%Q]]; strata := Some [:: 5; 5; 6; 6]%Z;
                kind := Strat; gen := [:: 1; 0; 0; 0]%nat |}
